@@ -64,7 +64,11 @@ func (w *World) checkSCT(op *Op) *SCT {
 		return nil
 	}
 	sct.OpID = op.ID
-	want, _ := oracle.LogID(w.logKey.Priv.Public())
+	logKey := w.logKey
+	if op.Sibling {
+		logKey = w.sib.key // the log that was asked
+	}
+	want, _ := oracle.LogID(logKey.Priv.Public())
 	if !bytes.Equal(sct.ID, want[:]) {
 		s.Violate("sct-log-id", key, "op%03d: SCT id %x is not SHA-256 of the log key (%x)", op.ID, sct.ID, want)
 		return nil
@@ -84,13 +88,16 @@ func (w *World) checkSCT(op *Op) *SCT {
 		return nil
 	}
 	msg := oracle.SCTSignatureInput(sct.Timestamp, sub.Entry, ext)
-	if err := oracle.VerifyDS(w.logKey.Priv.Public(), msg, ds); err != nil {
+	if err := oracle.VerifyDS(logKey.Priv.Public(), msg, ds); err != nil {
 		pre := "cert"
 		if sub.IsPre {
 			pre = "precert"
 			if sub.Issuers[0].IsPreIssuer() {
 				pre = "precert-via-preissuer"
 			}
+		}
+		if op.Sibling {
+			pre += "/sibling-log"
 		}
 		s.Violate("sct-signature", pre, "op%03d %s sub%d (%s, leaf key %s, exts %v, root included %v): SCT does not verify over the entry an independent client derives at timestamp %d: %v",
 			op.ID, op.Kind, sub.ID, pre, sub.Leaf.Spec.Key.Kind, sub.Leaf.Spec.Exts, sub.IncludeRoot, sct.Timestamp, err)
@@ -121,7 +128,11 @@ func oracleC01(w *World, op *Op) {
 	if sct == nil {
 		return
 	}
-	sub.SCTs = append(sub.SCTs, sct)
+	if !op.Sibling {
+		sub.SCTs = append(sub.SCTs, sct)
+	} else {
+		s.Probe("sct.ok.sibling")
+	}
 	s.Probe("sct.ok")
 	if sub.IsPre && sub.Issuers[0].IsPreIssuer() {
 		s.Probe("sct.ok.preissuer")
